@@ -9,7 +9,7 @@ def run(ctx):
     def has_fn(name):
         return re.search(r"\bstatic\s+[\w\s\*]+\b" + name + r"\s*\([^;{]*\)\s*\{", win) is not None
     snapshot = has_fn("_ref_children") and has_fn("_unref_children")
-    counted = has_fn("_forget_drag_source")
+    counted = re.search(r"ret\s*=\s*tickit_window_ref\s*\(\s*win\s*\)", win) is not None
     shown = has_fn("_is_shown")
     # the unrepaired loops save `next = child->next` before dispatching
     saved_next = len(re.findall(r"next\s*=\s*child->next\s*;", win))
